@@ -1,5 +1,6 @@
 import RedisGoModel.Driver.Util
 import RedisGoModel.Conc.PubSubTrace
+import RedisGoModel.Driver.PsSlow
 /-! pubsub lock-trace engine (C19, hook H2b): `PST <goroutine> <event> ...` — the event sequence one goroutine produced must be
     accepted by the model's operation automaton `PSC.TA.ok`; `PSTP` — the same for a recording that may stop inside an operation (a run, not necessarily quiescent);
     `PSTN <name> <event> ...` — a negative control that must be refused. -/
@@ -35,6 +36,6 @@ def psTraceLine (fs : List String) : Option (Except String Bool) :=
     match evs.mapM parseEv with
     | none => some (.error s!"control {name}: unknown event name")
     | some es => if TA.ok es then some (.error s!"control {name}: a non-conforming trace was accepted") else some (.ok true)
-  | _ => none
+  | _ => psSlowLine fs   -- slow-consumer histories (`PSH` / `PSHN`, Driver/PsSlow.lean)
 
 end Driver
